@@ -110,6 +110,9 @@ def c19(report, rng, tier, findings):
             g_ = gen.CondGen(rng, cfg, [v[0] for v in case['vars']])
             case['cond'] = [rng.choice([('and', g_.atom(), mem), ('and', mem, g_.atom()), mem, ('or', g_.atom(), mem)])]
             report.count('membership_of_a_falsy_item')
+        elif rng.random() < 0.15:
+            gen.apply_truth_operand_template(rng, case)
+            report.count('one_attribute_as_condition_and_as_operand')
         cases.append(case)
     report.rule = ("the generators of C01/C02 on datasets where 60% of the objects carry a falsy value (0, '', None, False, [], ()) "
                    "in the attribute used as a value and ints are drawn from 0..2: falsy values as comparison operands, membership "
